@@ -102,20 +102,20 @@ CLAIMED = {
    design='5 C15'),
  'C07': dict(
    text='Coq theorems: rational grids start at the start, are uniformly spaced and strictly increasing, have one point per step and end at the last point not after stop; '
-        'Gregorian civil<->day-count round trip and day-by-day monotonicity of the year representation (finite sweeps with the bounds stated in the theorems); calendar grids '
+        'Gregorian civil<->day-count round trip (month in 1..12, day within the month length incl. the leap rule) and day-by-day monotonicity of the year representation for EVERY day number (one 400-year era swept by the VM and lifted to all integers by the era periodicity of both conversions, Proofs/P_Calendar.v); calendar grids '
         'have exact whole-day spacing from an exact start and never pass stop; date and elapsed-time representations agree for whole-day steps (forced hypothesis) and drift '
         'otherwise (refutation witness); a module on the sim timeline sits on the sim axis. Every vector of real ss.Time objects (numeric, unitless, calendar day/week/year) and '
         'the three make_abstvec branches are compared with the model in Coq; the clauses of the property are evaluated on the real objects.',
-   note='Trusted: Coq kernel (vm_compute sweeps over 1970-2070 / 1990-2030), translator (unit table, rounding time_ratio), harness. The model computes on the decimal literals the user wrote; '
+   note='Trusted: Coq kernel (vm_compute sweeps over one 146097-day era), translator (unit table, rounding time_ratio), harness. The model computes on the decimal literals the user wrote; '
         'binary64 noise is tolerated at 1e-9 (vectors) and one day (dates derived from a numeric year vector at half-day boundaries). dateutil month stepping is not modelled '
         '(implementation-side clauses only). Known findings: float floor of the grid length, fractional-step date drift, month-end drift.',
-   technique='Coq proofs about rational/calendar grids (incl. finite sweeps lifted by forallb_forall) + in-Coq differential evaluation of ss.Time',
+   technique='Coq proofs about rational/calendar grids (one-era sweep lifted to every day number by periodicity lemmas) + in-Coq differential evaluation of ss.Time',
    design='5 C07'),
  'C16': dict(
    text='Coq theorems about the GENERATED hazard tails for all units and all dt: per-step probability = rate x units x rel x step length in years for plain-number mortality, '
         'births (number and time-parameter rates) and fertility; probability per year of step is independent of (unit, dt); the time-parameter mortality rate is multiplied by dt twice '
         '(theorem + refutation witness); ageing by k x dt_year; age-bin lookup; routine-delivery conversion compounds to the annual value only when the sim unit is the year (R) and is '
-        'unit-blind otherwise. The real hazard functions are called over a (sim unit, dt) x (module unit, dt) x rate-form grid and compared with the model in Coq and with rate x step length.',
+        'unit-blind otherwise; per-act transmission on sexual networks (generated from SexualNetwork.net_beta): hazard per unit time independent of the step and one-unit compounding for a per-act probability, dt applied twice for a time-scaled beta (theorem + refutation). The real hazard functions are called over a (sim unit, dt) x (module unit, dt) x rate-form grid and compared with the model in Coq and with rate x step length.',
    note='Trusted: Coq kernel, translator (isinstance(...TimePar) branches become a boolean parameter), harness (np.random.binomial intercepted to read the births probability). '
         'R theorems use the standard real-number axioms. "Expected events per year" as a statistical statement is not a theorem. Known findings: double dt in Deaths with a TimePar rate '
         '(pinned in baseline.json), unit-blind routine coverage.',
